@@ -23,8 +23,8 @@ theorem take_targets_distinct :
 
 /-- FACT (C07): the wrapper layers forward all three calls to the wrapped memory -/
 theorem wrapper_forwards :
-    WrappingMemory_TakeSnapshot = [("->", "p.mem.TakeSnapshot")] ∧
-    WrappingMemory_RestoreSnapshot = [("->", "p.mem.RestoreSnapshot")] ∧
-    WrappingMemory_ClearStatistics = ["->p.mem.ClearStatistics"] := by decide
+    WrappingMemory_TakeSnapshot = [("->", "<Memory>.TakeSnapshot")] ∧
+    WrappingMemory_RestoreSnapshot = [("->", "<Memory>.RestoreSnapshot")] ∧
+    WrappingMemory_ClearStatistics = ["-><Memory>.ClearStatistics"] := by decide
 
 end Verif.Facts
